@@ -64,6 +64,7 @@ type Op struct {
 	List    int    `json:"list,omitempty"` // Client scenarios: index into Plan.Lists
 	N       int    `json:"n,omitempty"`
 	Bad     string `json:"bad,omitempty"` // "method" unknown method, "args" undecodable args, "encode" unencodable request
+	NilDone bool   `json:"nd,omitempty"`  // go ops: pass a nil done channel (the library allocates one)
 	Fault   *Fault `json:"fault,omitempty"`
 }
 
@@ -232,6 +233,7 @@ type World struct {
 	shutdownQ simrt.WaitQ
 	shutdown bool
 	joinQ    simrt.WaitQ
+	FaultSeq    uint64 // event sequence number at which the first operation-triggered fault fired
 	TeardownSeq uint64 // event sequence number at which the harness began to tear the world down
 	streamEvQ simrt.WaitQ // woken at every progress step of a stream (opened, message read / written on either end)
 	active   int
